@@ -123,3 +123,24 @@ func scalarOrVec(t ssa.Type) bool {
 //@     invariant[stack-result-stored-at-full-width] rangeindex >= 0 && rangeindex < len(abi.Rets) && scalarOrVec(abi.Rets[rangeindex].Type) && abi.Rets[rangeindex].Kind != backend.ABIArgKindReg ==> isStoreInstr(cur) && movBytes(cur) == typeBytes(abi.Rets[rangeindex].Type)
 //@     invariant[stack-result-loaded-at-full-width] rangeindex >= 0 && rangeindex < len(abi.Rets) && scalarOrVec(abi.Rets[rangeindex].Type) && abi.Rets[rangeindex].Kind != backend.ABIArgKindReg ==> cur.prev != nil && isLoadInstr(cur.prev) && movBytes(cur.prev) == typeBytes(abi.Rets[rangeindex].Type)
 //@   nosafety
+
+// ---- C05: an integer comparison fused into a branch, a select or an exit-if is emitted at the width of
+// the values it compares (a 64-bit comparison emitted at 32 bits ignores the upper halves): stated as the
+// precondition of lowerIcmpToFlag and checked at each of its call sites.
+//@ prop C05
+//@ iface (c backend.Compiler) ValueDefinition(v ssa.Value) backend.SSAValueDefinition
+//@   ensures r0.V == v
+//@   modifies nothing
+//@ func (m *machine) lowerIcmpToFlag(xd, yd backend.SSAValueDefinition, _64 bool)
+//@   trusted
+//@   requires[compared-at-the-width-of-the-compared-values] _64 == (xd.V.Type() == ssa.TypeI64)
+
+//@ func (m *machine) lowerSelect(x, y, cval, ret ssa.Value)
+//@   requires m.c != nil
+//@   ensures true
+//@   nosafety keep-pre
+
+//@ func (m *machine) lowerIcmp(instr *ssa.Instruction)
+//@   requires m.c != nil && instr != nil
+//@   ensures true
+//@   nosafety keep-pre
